@@ -25,8 +25,9 @@ package scheduling
 //@   after (*Toleration).ToleratesTaint assume [pureLogger] forall p *logr.Logger {p.sink} {p.level} :: p.sink == old(p.sink) && p.level == old(p.level)
 //@   ensures [exact] (errs == nil) <==> (forall a int {ts[a]} :: (0 <= a && a < len(ts)) ==> toleratedBy(tolerations, len(tolerations), &ts[a]))
 //@   loop 1 invariant [exact] (errs == nil) <==> (forall a int {ts[a]} :: (0 <= a && a <= $i) ==> toleratedBy(tolerations, len(tolerations), &ts[a]))
-//@   loop 2 invariant [copy] taint.Key == ts[$i1 + 1].Key && taint.Value == ts[$i1 + 1].Value && taint.Effect == ts[$i1 + 1].Effect
-//@   loop 2 invariant [some] tolerates <==> toleratedBy(tolerations, $i + 1, &ts[$i1 + 1])
+//@   loop 2 invariant [cells] forall p *corev1.Taint {p.Key} {p.Value} {p.Effect} :: p.Key == loopentry(p.Key) && p.Value == loopentry(p.Value) && p.Effect == loopentry(p.Effect)
+//@   loop 2 invariant [found] tolerates ==> toleratedBy(tolerations, $i + 1, &ts[$i1 + 1])
+//@   loop 2 invariant [none] !tolerates ==> (forall j int {tolerations[j]} :: (0 <= j && j <= $i) ==> !k8sTolerates(&tolerations[j], &ts[$i1 + 1]))
 
 //@ func (Taints).ToleratesPod
 //@   prop C01
